@@ -57,7 +57,11 @@ def parse(log):
         elif r["unwind_fail"] and all(("unwinding assertion" in f["desc"] or ".unwind." in f["check"]) for f in r["failed"]):
             r["reason"] = "unwinding assertion failed: bound too small"
         elif r["failed"]:
-            unsupported = [f for f in r["failed"] if "is not currently supported by Kani" in f["desc"] or "unsupported" in f["desc"].lower()]
+            unsupported = [f for f in r["failed"] if "is not currently supported by Kani" in f["desc"] or "unsupported" in f["desc"].lower()
+                           or "missing_definition" in f["check"] or "unsupported_construct" in f["check"]]
+            if unsupported:
+                # once an unsupported construct was reached every later check is meaningless
+                r["failed"] = [f for f in r["failed"] if f in unsupported]
             real = [f for f in r["failed"] if f not in unsupported and not ("unwinding assertion" in f["desc"])]
             if real:
                 r["status"] = "fail"
